@@ -41,7 +41,10 @@ def run_shell_batch(shell, cases, prelude, setup_dir, env_extra, timeout):
         setup_dir(d)
     r = core.run_shell(shell, render(cases, prelude), d, env_extra=env_extra, timeout=timeout)
     core.rmtree(d)
-    return parse(r.out), r
+    # the scratch directory differs per execution; where it shows up inside hex-dumped arguments (`~+`, $PWD) it is
+    # replaced by a fixed token so that both shells' observations are comparable
+    out = r.out.replace(d.encode().hex().encode(), b"2f435744").replace(d.encode(), b"/CWD")
+    return parse(out), r
 
 
 def complete(obs, i):
